@@ -140,6 +140,43 @@ def isCookie : Ev → Bool
   | .delCookie => true
   | _ => false
 
+/-! ### what a Set-Cookie header says -/
+
+/-- A Set-Cookie as a browser parses it. `value = none` is the deletion marker `deleted`; `expires` is in whole seconds on the
+transcript's clock. -/
+structure CookieOut where
+  name : String
+  value : Option ID
+  path : String
+  domain : String
+  expires : Option Int
+  maxAge : Int
+  secure : Bool
+  httpOnly : Bool
+  sameSite : Int
+deriving Repr, DecidableEq, Inhabited
+
+/-- net/http writes `Max-Age` only when it is positive or negative (then as 0, read back as -1) -/
+def normMaxAge (m : Int) : Int := if m > 0 then m else if m == 0 then 0 else -1
+
+/-- net/http writes Lax/Strict/None and nothing for the default mode -/
+def normSameSite (s : Int) : Int := if s == 2 || s == 3 || s == 4 then s else 0
+
+/-- the deletion cookie's `Expires` is `time.Unix(0, 0)`: that many seconds before the transcript's epoch -/
+def deletionExpires : Int := -1257894000
+
+/-- the cookie a cookie event stands for: live cookies are the template with name and value filled in (`Expires = now + offset`),
+the deletion cookie is a copy of the REQUEST's cookie (name only) marked expired -/
+def cookieOut (ck : CookieCfg) (t : Int) : Ev → Option CookieOut
+  | .setCookie id => some
+      { name := ck.name, value := some id, path := ck.path, domain := ck.domain,
+        expires := if ck.expOff == 0 then none else some (t / 1000000000 + ck.expOff),
+        maxAge := normMaxAge ck.maxAge, secure := ck.secure, httpOnly := ck.httpOnly, sameSite := normSameSite ck.sameSite }
+  | .delCookie => some
+      { name := ck.name, value := none, path := "", domain := "", expires := some deletionExpires, maxAge := -1,
+        secure := false, httpOnly := false, sameSite := 0 }
+  | _ => none
+
 /-! ### crash points -/
 
 def applyMut (st : List (ID × Rec)) : Ev → List (ID × Rec)
